@@ -209,6 +209,8 @@ def materialise(spec, path):
             meta["numGammaGroups"] = gg
             lib.neutronEnergyUpperBounds = _energy(src.neutronEnergyUpperBounds, gn, spec.get("shiftE"))
             lib.gammaEnergyUpperBounds = _energy(src.gammaEnergyUpperBounds, gg, spec.get("shiftG"))
+            if int(spec.get("prodOrder") or 1) > 1:
+                meta["maxScatteringOrder"] = int(spec["prodOrder"])
             if spec.get("dose"):
                 meta["hasDoseConversionFactor"] = True
                 d = spec["dose"]
@@ -225,6 +227,12 @@ def materialise(spec, path):
                 n.neutronDamage = np.array(sn.neutronDamage[:gn]) * scale
                 n.gammaHeating = np.array(sn.gammaHeating[:gg]) * scale
                 n.isotropicProduction = np.array(sn.isotropicProduction[:gg, :gn]) * scale
+                order = int(spec.get("prodOrder") or 1)
+                if order > 1:  # production matrices beyond the isotropic one (the fixtures stop at order 1)
+                    n.pmatrxMetadata["maxScatteringOrder"] = order
+                    n.linearAnisotropicProduction = n.isotropicProduction * 0.5
+                    for k in range(3, order + 1):
+                        n.nOrderProductionMatrix[k] = n.isotropicProduction * (0.5 ** (k - 1))
                 lib[label] = n
     finally:
         properties.lockImmutableProperties(lib)
